@@ -125,6 +125,9 @@ class Ctx(object):
                 self.known_hits.append(key)
                 print("KNOWN-FINDING: property=%s %s [%s]" % (self.pid, self.known[(self.pid, key)], key))
             return False
+        if any(v["key"] == key for v in self.violations):
+            self.violations.append({"key": key, "what": what, "replay": None})
+            return True
         h = hashlib.sha1((key + "|" + what).encode()).hexdigest()[:10]
         rdir = os.path.join(VERIF, "replay")
         os.makedirs(rdir, exist_ok=True)
@@ -142,7 +145,9 @@ class Ctx(object):
     def drift(self, what):
         if len(self.drifts) < 50:
             self.drifts.append(what)
-        print("CONFORMANCE-DRIFT property=%s %s" % (self.pid, what))
+            if len(self.drifts) <= 5:
+                print("CONFORMANCE-DRIFT property=%s %s" % (self.pid, what))
+        self.ndrift = getattr(self, "ndrift", 0) + 1
 
     def machinery(self, what):
         raise MachineryError(what)
